@@ -128,8 +128,10 @@ def recReadFn (t : Tables) (r : Nat) (args : List Nat) (n : Nat) : Bool :=
   match t.sizeNames[r]? with
   | none => false
   | some name =>
-    if name = "ValueRecord" ∨ name = "IdDeltaOrLength" then handRecRead name args n
-    else
+    match name, args with
+    | "ValueRecord", [_] => handRecRead name args n
+    | "IdDeltaOrLength", [_] => handRecRead name args n
+    | _, _ =>
       -- not returned by value by any generated getter; "a slice of at least the computed size"
       match sizeFn t 8 r args with
       | .ok k => decide (k ≤ n)
